@@ -71,6 +71,22 @@ def tokens(chk, lab):
                 oks = [ps for ps in pss if ps.result()[0] == 'Ok']
                 if not oks:
                     continue
+                if not op.startswith('set_flags_p'):
+                    # the token names *the page whose mapping changed*: every slot a successful call writes is the slot of the argument page
+                    # (each level's table indexed by that page's own index), and a path that hands out no token has not changed the leaf
+                    leaf = SM.LEAF_LEVEL[size]
+                    other, silent = set(), set()
+                    for ps in pss:
+                        res = ps.result()
+                        for st_ in ps.steps:
+                            if st_.k != 'write':
+                                continue
+                            if res[0] == 'Ok' and (st_.level is None or not lab.index_ok(st_.level, st_.idx, 'page', size)):
+                                other.add('level-%s slot indexed by %r' % (st_.level, st_.idx))
+                            if res[0] != 'Ok' and st_.level == leaf:
+                                silent.add('%r path writes the level-%d slot' % (res, leaf))
+                    chk.ob('flush-token', '%s: the slots a successful call writes are the argument page\'s own' % lbl((impl, size, op)), not other, '; '.join(sorted(other)), I.fn[fn_]['loc'])
+                    chk.ob('flush-token', '%s: no leaf mapping changes on a path that returns no token' % lbl((impl, size, op)), not silent, '; '.join(sorted(silent)), I.fn[fn_]['loc'])
                 good = True
                 for ps in oks:
                     v = ps.result()[1]
